@@ -221,9 +221,7 @@ Definition model_obs (c : c09_case) : list obs * list evobs :=
   let '(m, os) := script_run minit (c_script c) in
   (os, map ev_obs (rev (s_events (m_s m)))).
 
-Definition c09_check (c : c09_case) : bool :=
-  let '(os, evs) := model_obs c in
-  list_eqb obs_eqb os (c_obs c) && list_eqb evobs_eqb evs (c_events c).
+(* c09_check (model = observation, plus the bookkeeping link) is defined at the end of the file *)
 
 (* ---------- the oracle: C09 on the implementation's own observation ---------- *)
 Definition env_is_unk (e : env) : bool := match e with EnvUnknown _ _ => true | _ => false end.
@@ -253,35 +251,46 @@ Definition class_ok (o : obs) : bool :=
   | _ => true
   end.
 
-(* (2),(3) bookkeeping over the observation: revisions allocated so far, unresolved unknown revisions (FIFO) *)
-Record book := { bk_dealt : N; bk_unres : list N; bk_parked : bool; bk_ok : bool }.
+(* (2),(3) bookkeeping over the observation: revisions allocated so far, the unresolved unknown revisions in increasing
+   order (the retry queue is FIFO in revision order and the sequencer feeds it in revision order), the revision of a
+   repair write parked before its commit *)
+Record book := { bk_dealt : N; bk_unres : list N; bk_parked : bool; bk_prev : N; bk_ok : bool }.
+
+Fixpoint insert_sorted (x : N) (l : list N) : list N :=
+  match l with
+  | [] => [x]
+  | a :: l' => if x <? a then x :: l else a :: insert_sorted x l'
+  end.
 
 Definition book_step (b : book) (x : dstep * obs) : book :=
   let '(d, o) := x in
   match d, o_d o with
   | DWrite _ _ _ _, OResp r _ =>
       let rev := bk_dealt b + 1 in
-      {| bk_dealt := rev; bk_unres := (match r with RErr true => bk_unres b ++ [rev] | _ => bk_unres b end);
-         bk_parked := bk_parked b; bk_ok := bk_ok b |}
+      {| bk_dealt := rev; bk_unres := (match r with RErr true => insert_sorted rev (bk_unres b) | _ => bk_unres b end);
+         bk_parked := bk_parked b; bk_prev := bk_prev b; bk_ok := bk_ok b |}
   | DCompact _, OResp (RCompacted h) _ =>
-      {| bk_dealt := bk_dealt b; bk_unres := bk_unres b; bk_parked := bk_parked b;
+      {| bk_dealt := bk_dealt b; bk_unres := bk_unres b; bk_parked := bk_parked b; bk_prev := bk_prev b;
          bk_ok := bk_ok b && forallb (fun r => h <? r) (bk_unres b) && (h <=? o_committed o) |}
   | (DRetry _ _ | DRetryGet _ | DRetryFinish _), ORetry st =>
-      let alloc := if bk_parked b then bk_dealt b else bk_dealt b + 1 in
+      (* the revision this iteration's rewrite allocated: the parked one, or a fresh one *)
+      let alloc := if bk_parked b then bk_prev b else bk_dealt b + 1 in
+      let dealt' := if bk_parked b then bk_dealt b else bk_dealt b + 1 in
       match st with
-      | RSParked => {| bk_dealt := bk_dealt b + 1; bk_unres := bk_unres b; bk_parked := true; bk_ok := bk_ok b |}
+      | RSParked => {| bk_dealt := bk_dealt b + 1; bk_unres := bk_unres b; bk_parked := true; bk_prev := bk_dealt b + 1; bk_ok := bk_ok b |}
       | RSSuccess =>
-          {| bk_dealt := alloc; bk_unres := pop_head (bk_unres b); bk_parked := false; bk_ok := bk_ok b |}
+          {| bk_dealt := dealt'; bk_unres := pop_head (bk_unres b); bk_parked := false; bk_prev := bk_prev b; bk_ok := bk_ok b |}
       | RSFailedPut =>
           (* the node is dropped only when the rewrite lost a compare (EnvOk with a failed condition, or an engine abort);
              after a definite failure of another kind it stays at the head *)
           let keep := match d with DRetry EnvError _ | DRetryFinish EnvError => true | _ => false end in
-          {| bk_dealt := alloc; bk_unres := (if keep then bk_unres b else pop_head (bk_unres b)); bk_parked := false; bk_ok := bk_ok b |}
+          {| bk_dealt := dealt'; bk_unres := (if keep then bk_unres b else pop_head (bk_unres b)); bk_parked := false;
+             bk_prev := bk_prev b; bk_ok := bk_ok b |}
       | RSUnknownPut =>
-          (* the node stays, and the event of the attempt is queued behind it *)
-          {| bk_dealt := alloc; bk_unres := bk_unres b ++ [alloc]; bk_parked := false; bk_ok := bk_ok b |}
+          (* the node stays, and the event of the attempt joins the unresolved ones *)
+          {| bk_dealt := dealt'; bk_unres := insert_sorted alloc (bk_unres b); bk_parked := false; bk_prev := bk_prev b; bk_ok := bk_ok b |}
       | RSUnnecessary =>
-          {| bk_dealt := bk_dealt b; bk_unres := pop_head (bk_unres b); bk_parked := false; bk_ok := bk_ok b |}
+          {| bk_dealt := bk_dealt b; bk_unres := pop_head (bk_unres b); bk_parked := false; bk_prev := bk_prev b; bk_ok := bk_ok b |}
       | _ => b
       end
   | _, _ => b
@@ -289,7 +298,7 @@ Definition book_step (b : book) (x : dstep * obs) : book :=
 
 Definition book_of (c : c09_case) : book :=
   fold_left book_step (combine (c_script c) (c_obs c))
-            {| bk_dealt := r0; bk_unres := []; bk_parked := false; bk_ok := true |}.
+            {| bk_dealt := r0; bk_unres := []; bk_parked := false; bk_prev := 0; bk_ok := true |}.
 
 Definition last_obs (c : c09_case) : option (dstep * obs) :=
   match rev (combine (c_script c) (c_obs c)) with x :: _ => Some x | [] => None end.
@@ -354,12 +363,16 @@ Definition conv_step (evs : list wevent) (a : cstate) (x : dstep * obs) : cstate
   | _, _ => {| cs_book := b'; cs_lists := cs_lists a; cs_probe := None; cs_conv := cs_conv a; cs_probe_ok := cs_probe_ok a |}
   end.
 
-(* (4) acknowledged writes are durable: exactly one delivered event carries the acknowledged revision, with the
-   request's verb / key / value, and delivered events have increasing revisions *)
-Definition ack_event_ok (evs : list evobs) (x : dstep * obs) : bool :=
+(* (4) acknowledged writes are durable: exactly one delivered event carries the acknowledged revision (once it is
+   committed), with the request's verb / key / value, and delivered events have increasing revisions *)
+Definition final_committed (os : list obs) : N :=
+  match rev os with o :: _ => o_committed o | [] => 0 end.
+
+Definition ack_event_ok (evs : list evobs) (fin : N) (x : dstep * obs) : bool :=
   let '(d, o) := x in
   match d, o_d o with
   | DWrite op _ _ _, OResp (ROk h _) _ =>
+      if fin <? h then true else     (* not yet committed when the script ends (sequencer held): nothing delivered yet *)
       match filter (fun e => let '(_, _, _, r, _) := e in r =? h) evs with
       | [(v, k, val, _, _)] =>
           verb_eqb v (op_verb op) && (k =? op_key op)
@@ -377,15 +390,37 @@ Fixpoint increasing (l : list N) : bool :=
 
 Definition conv_of (c : c09_case) : cstate :=
   fold_left (conv_step (rev (map ev_of_obs (c_events c)))) (combine (c_script c) (c_obs c))
-            {| cs_book := {| bk_dealt := r0; bk_unres := []; bk_parked := false; bk_ok := true |};
+            {| cs_book := {| bk_dealt := r0; bk_unres := []; bk_parked := false; bk_prev := 0; bk_ok := true |};
                cs_lists := []; cs_probe := None; cs_conv := true; cs_probe_ok := true |}.
 
 Definition c09_oracle (c : c09_case) : option N :=
   if existsb step_outside (c_script c) then None else
   if negb (forallb class_ok (c_obs c)) then Some 0 else
   if negb (bk_ok (book_of c)) then Some 0 else
-  if negb (forallb (ack_event_ok (c_events c)) (combine (c_script c) (c_obs c))
+  if negb (forallb (ack_event_ok (c_events c) (final_committed (c_obs c))) (combine (c_script c) (c_obs c))
            && increasing (map (fun e : evobs => let '(_, _, _, r, _) := e in r) (c_events c))) then Some 0 else
   let cs := conv_of c in
   if negb (cs_probe_ok cs) then Some 0 else
   if cs_conv cs then None else Some 0.
+
+(* ---------- the check ----------
+   The model's observation of the script equals the recorded one, and — for scripts inside the stated assumptions — the
+   oracle's bookkeeping over observations agrees with the model where it matters: wherever it regards a List as drained
+   (queue observation 0, committed = revisions counted from observations, nothing parked or unresolved) the model state
+   is quiescent. *)
+Definition book0 : book := {| bk_dealt := r0; bk_unres := []; bk_parked := false; bk_prev := 0; bk_ok := true |}.
+
+Fixpoint drained_quiescent (m : mstate) (b : book) (ds : list dstep) : bool :=
+  match ds with
+  | [] => true
+  | d :: ds' =>
+      let mo := dstep_run m d in
+      let b' := book_step b (d, snd mo) in
+      match d with DList => implb (drained b' (snd mo)) (quiescentb (m_s (fst mo))) | _ => true end
+      && drained_quiescent (fst mo) b' ds'
+  end.
+
+Definition c09_check (c : c09_case) : bool :=
+  let '(os, evs) := model_obs c in
+  list_eqb obs_eqb os (c_obs c) && list_eqb evobs_eqb evs (c_events c)
+  && (existsb step_outside (c_script c) || drained_quiescent minit book0 (c_script c)).
